@@ -136,6 +136,11 @@ func runContracts(eng *Engine, prop, fnFilter, work string, timeout time.Duratio
 	for _, k := range keys {
 		fc := eng.contracts.Funcs[k]
 		fr := FuncResult{Key: fc.Key, Pkg: fc.Pkg, Props: fc.Props, Trusted: fc.Trusted}
+		if fc.Like != "" {
+			fr.Trusted = "abstract contract of a func-typed field (like " + fc.Like + ")"
+			run.Funcs = append(run.Funcs, fr)
+			continue
+		}
 		if fc.Trusted != "" {
 			if _, ok := eng.fnByKey[k]; !ok && !strings.HasPrefix(fc.Trusted, "external") {
 				fr.Error = "trusted contract target not found"
